@@ -437,6 +437,7 @@ class EngineTap:
         self.engine = engine
         self.response = None
         self.version = None
+        self.size = None
 
     @property
     def default_protocol_version(self):
@@ -448,6 +449,13 @@ class EngineTap:
     def process_request(self, request, credential=None):
         out = self.engine.process_request(request, credential)
         self.response, self.version = out[0], out[2]
+        real_write = self.response.write
+
+        def measured(stream, **kw):          # the session's own encoding of this response: remember its length
+            n0 = len(stream)
+            real_write(stream, **kw)
+            self.size = len(stream) - n0
+        self.response.write = measured
         return out
 
 
@@ -546,14 +554,10 @@ class Impl:
             escaped = type(e).__name__
         if escaped is not None or len(conn.sent) != 1:
             return {'error': {'reason': 'NO_RESPONSE', 'message': 'NoResponse: %s escaped from the session, %d messages sent' % (escaped, len(conn.sent))},
-                    'items': []}, None
+                    'items': []}, tap.size
         resp = messages.ResponseMessage()
         resp.read(kutils.BytearrayStream(conn.sent[0]), kmip_version=kv)
-        size = None
-        if tap.response is not None:
-            b2 = kutils.BytearrayStream()
-            copy.deepcopy(tap.response).write(b2, kmip_version=contents.protocol_version_to_kmip_version(tap.version))
-            size = len(b2.buffer)
+        size = tap.size
         items = [kdrv.project_item(bi) for bi in resp.batch_items]
         if len(items) == 1 and items[0]['op'] is None and not kdrv.ok(items[0]):
             return {'error': {'reason': items[0]['reason'], 'message': items[0]['message']}, 'items': []}, size
@@ -1029,6 +1033,11 @@ def gen_sweep(run, ctx):
                 continue
             run.sweep([req([I_raw(n), rng.choice(committing), I_get(1, 'GET_ATTRIBUTES')], ver=ver, opt='CONTINUE')], 'sweep:F S R')
             run.sweep([req([rng.choice(committing), I_raw(n), rng.choice(committing)], ver=ver, opt=rng.choice([None, 'CONTINUE']))], 'sweep:S F S')
+    for n in names:
+        if RAW[n]()[0].name in ('CREATE', 'REGISTER', 'CREATE_KEY_PAIR', 'DERIVE_KEY'):
+            for ver in [(1, 2)] + ([] if quick else [(1, 0), (2, 0)]):
+                run.sweep([req([I_raw(n), I_get(), I_activate(), I_get(None, 'GET_ATTRIBUTES'), I_raw('encrypt_placeholder')], ver=ver, opt='CONTINUE')],
+                          'sweep:placeholder')
     for _ in range(20 if quick else 400):
         reqs = []
         for _ in range(rng.randint(1, 3)):
@@ -1070,7 +1079,8 @@ def find_failing_input(run, ctx, bad):
     for i in sorted(bad, key=suspicion)[:12]:
         m = run.meta[i]
         r = m['request']
-        for tail in ([I_create(names=[71])], [I_get(1, 'GET_ATTRIBUTES'), I_modify(1, 'AName', 0, 72)], [I_ro('LOCATE'), I_create()]):
+        for tail in ([I_create(names=[71])], [I_get(1, 'GET_ATTRIBUTES'), I_modify(1, 'AName', 0, 72)], [I_ro('LOCATE'), I_create()],
+                     [I_get(None), I_get(None, 'GET_ATTRIBUTES')]):
             items = [dict(x) for x in r['items']] + tail
             r2 = req([dict(x, bid=None) for x in items], ver=r['ver'], opt='CONTINUE', user=r['user'])
             if tuple(r2['ver']) not in [(1, 0), (1, 1), (1, 2), (1, 3), (1, 4), (2, 0)]:
